@@ -60,6 +60,17 @@ EDITS=[
  ("C23","no-empty-check","expand/expand.go",("\tif len(fpos) == 0 {\n\t\treturn nil\n\t}\n\tif infield {","\tif infield {"),"expand.ReadFields#index@fpos[0]"),
  ("C23","combine-at-n","expand/expand.go",("\tcase n != -1 && n < len(fpos):","\tcase n < len(fpos):"),"expand.ReadFields#"),
  ("C23","readline-drops-unchecked","interp/builtin.go",("\t\t\tcase !raw && b == '\\n' && esc:","\t\t\tcase !raw && b == '\\n':"),"interp.Runner.readLine#slice@"),
+ ("C18","hasmeta-forgets-question-mark","pattern/pattern.go",("\t\tcase '*', '?':\n\t\t\treturn true","\t\tcase '*':\n\t\t\treturn true"),"pattern.HasMeta#"),
+ ("C18","hasmeta-skips-two","pattern/pattern.go",("\t\tcase '\\\\':\n\t\t\ti++\n\t\tcase '*', '?':","\t\tcase '\\\\':\n\t\t\ti += 2\n\t\tcase '*', '?':"),"pattern.HasMeta#"),
+ ("C18","hasmeta-any-bracket","pattern/pattern.go",("\t\t\tif openBracket {\n\t\t\t\treturn true\n\t\t\t}","\t\t\treturn true"),"pattern.HasMeta#"),
+ ("C18","quotemeta-forgets-bracket","pattern/pattern.go",("\t\tcase '*', '?', '[', '\\\\':\n\t\t\tsb.WriteByte('\\\\')","\t\tcase '*', '?', '\\\\':\n\t\t\tsb.WriteByte('\\\\')"),"pattern.QuoteMeta#"),
+ ("C18","quotemeta-fastpath-misses-backslash","pattern/pattern.go",("\t\tcase '*', '?', '[', '\\\\':\n\t\t\tneedsEscaping = true","\t\tcase '*', '?', '[':\n\t\t\tneedsEscaping = true"),"pattern.QuoteMeta#"),
+ ("C18","quotemeta-escape-after","pattern/pattern.go",("\t\t\tsb.WriteByte('\\\\')\n\t\t}\n\t\tsb.WriteRune(r)","\t\t\tsb.WriteRune(r)\n\t\t\tsb.WriteByte('\\\\')\n\t\t\tcontinue\n\t\t}\n\t\tsb.WriteRune(r)"),"pattern.QuoteMeta#"),
+ ("C13","dq-forgets-backquote","syntax/quote.go",("\t\tcase '\"', '\\\\', '`', '$':\n\t\t\tb.WriteByte('\\\\')","\t\tcase '\"', '\\\\', '$':\n\t\t\tb.WriteByte('\\\\')"),"syntax.Quote#inv-pres@loop3"),
+ ("C13","single-quotes-around-a-quote","syntax/quote.go",("\tif !strings.Contains(s, \"'\") {","\tif !strings.Contains(s, \"\\\"\") {"),"syntax.Quote#ensures@shape"),
+ ("C13","equals-sign-unquoted","syntax/quote.go",("\t\t\t// Might result in an assignment.\n\t\t\t'=':","\t\t\t// Might result in an assignment.\n\t\t\t'%':"),"syntax.Quote#"),
+ ("C13","posix-error-for-mksh","syntax/quote.go",("\t\t\tif lang.in(LangPOSIX) {\n\t\t\t\treturn \"\", &QuoteError{ByteOffset: offs, Message: quoteErrPOSIX}","\t\t\tif lang.in(LangPOSIX | LangMirBSDKorn) {\n\t\t\t\treturn \"\", &QuoteError{ByteOffset: offs, Message: quoteErrPOSIX}"),"syntax.Quote#ensures@posix-error-only-for-posix"),
+ ("C13","null-byte-accepted","syntax/quote.go",("\t\tcase '\\x00':\n\t\t\treturn \"\", &QuoteError{ByteOffset: offs, Message: quoteErrNull}\n",""),"syntax.Quote#"),
 ]
 SEEDS=[ # prop, seed dir, expect
  ("C09","C09-2","syntax.ArithmExp.End#"),
@@ -76,6 +87,7 @@ SEEDS=[ # prop, seed dir, expect
  ("C16","C16-1","expand.bracesSeqRec#inv-init@loop2.pad-covers-endpoints"),
  ("C20","C20-1","expand.Config.assgnArit#ensures@reads-old-value-first"),("C20","C20-2","syntax.Parser.arithmExpr#precedence@"),
  ("C04","C04-1","syntax.simplifier.visit#ensures@match-keeps-quotes"),("C04","C04-2","syntax.simplifier.removeNegateTest#ensures@complement-table"),
+ ("C13","C13-1","syntax.Quote#"),("C18","C18-1","pattern.QuoteMeta#"),("C18","C18-2","pattern.HasMeta#"),
  ("C28","C23-2","interp.Runner.readLine#inv-pres@"),("C23","C23-2","interp.Runner.readLine#inv-pres@"),("C23","C23-1","expand.ReadFields#inv-"),
  ("C06","C06-2","syntax#eof-exit@Parser.zshSubFlags"),
  ("C08","C06-1","syntax.Parser.reset#"),
